@@ -72,6 +72,20 @@ AbstractParameterAliasable& AbstractParameterAliasable::operator=(const Abstract
   return *this;
 }
 
+namespace
+{
+// Intervals are compared by their bounds; the textual description (6 significant
+// digits) is only used for other kinds of constraints.
+bool sameConstraint(const ConstraintInterface& c1, const ConstraintInterface& c2)
+{
+  const IntervalConstraint* i1 = dynamic_cast<const IntervalConstraint*>(&c1);
+  const IntervalConstraint* i2 = dynamic_cast<const IntervalConstraint*>(&c2);
+  if (i1 && i2)
+    return *i1 == *i2;
+  return c1.getDescription() == c2.getDescription();
+}
+}
+
 void AbstractParameterAliasable::aliasParameters(const std::string& p1, const std::string& p2)
 {
   // In case this is the first time we call this method:
@@ -113,9 +127,7 @@ void AbstractParameterAliasable::aliasParameters(const std::string& p1, const st
     if (param2->hasConstraint())
       nc = param2->getConstraint();
   }
-  else
-  // We use a small trick here, we test the constraints on the basis of their string description (C++ does not provide a default operator==() :( ).
-  if (param2->hasConstraint() && (param1->getConstraint()->getDescription() != param2->getConstraint()->getDescription()))
+  else if (param2->hasConstraint() && !sameConstraint(*param1->getConstraint(), *param2->getConstraint()))
   {
     nc.reset(*param2->getConstraint() & *param1->getConstraint());
     if (!nc)
